@@ -441,6 +441,11 @@ class Spectrum(object):
     def _getData(self):
         return self.__data
     def _setData(self, data):
+        if self.__data is not None:
+            # nothing to do if the samples are unchanged (like the other setters)
+            new = numpy.asarray(data)
+            if new.dtype == self.__data.dtype and numpy.array_equal(new, self.__data):
+                return
         if type(data) == list:
             from numpy import array
             self.__data = array(data)
